@@ -154,6 +154,7 @@ func RunC13(env *sim.Env) {
 			}
 		}
 		// (b)-(d): every dynamic probe call inside the body as the failing one
+		reruns, doubles := 0, 0
 		maxFP := 40
 		if env.Tier == "thorough" {
 			maxFP = 120
@@ -164,7 +165,7 @@ func RunC13(env *sim.Env) {
 		}
 		for k := 1; k <= O.Probes.Calls; k++ {
 			id := O.Probes.IDs[k-1]
-			if id == gen.MarkTryBegin || id == gen.MarkTryEnd || id == gen.MarkTryBody {
+			if id == gen.MarkTryBegin || id == gen.MarkTryEnd || id == gen.MarkTryBody || id == gen.MarkRoot {
 				continue
 			}
 			if stride > 1 && k%stride != 0 {
@@ -188,6 +189,52 @@ func RunC13(env *sim.Env) {
 			F, _ := run(&jetSet{set}, fc)
 			env.Event("fault k=%d id=%d inst=%d -> %016x", k, id, j, sim.HashString(F.Key()))
 			env.Stat("fault:function_panics_with_error_inside_try_body", 1)
+			// no trace in later executions either: the fault-free run repeated right after must be unchanged
+			if reruns < 10 {
+				reruns++
+				R, _ := run(&jetSet{set}, call)
+				if R.Key() != O.Key() {
+					env.Violate("no-trace-later", "later-execution-differs", "after the execution that failed inside the try body (call %d = fail(%d)), the fault-free execution of %s renders differently than before.\nbefore: %s\nafter:  %s", k, id, m, O.Describe(), R.Describe())
+				}
+			}
+			// a second failure in the same execution: a call that happens after the first one
+			// (typically in the catch body of an inner try that absorbed it)
+			if doubles < 6 && F.Probes.Calls > k {
+				for _, k2 := range []int{k + 1, F.Probes.Calls} {
+					if k2 <= k || k2 > F.Probes.Calls || (k2 == F.Probes.Calls && k2 == k+1 && doubles%2 == 1) {
+						continue
+					}
+					id2 := F.Probes.IDs[k2-1]
+					if id2 == gen.MarkTryBegin || id2 == gen.MarkTryEnd || id2 == gen.MarkTryBody || id2 == gen.MarkRoot {
+						continue
+					}
+					// only second faults that still lie inside this instance of the statement
+					endK := 0
+					for x, idx := range F.Probes.IDs {
+						if idx == gen.MarkTryEnd && x+1 > k {
+							endK = x + 1
+							break
+						}
+					}
+					if endK == 0 || k2 >= endK {
+						continue
+					}
+					doubles++
+					D, _ := run(&jetSet{set}, Call{Tmpl: m, Data: data, FaultProbe: k, FaultProbe2: k2})
+					env.Stat("fault:second_failure_in_same_execution", 1)
+					dout := Norm(D.Out)
+					dpre, dpost := Norm(O.Out[:ins[j].b]), Norm(O.Out[ins[j].e:])
+					if D.Err == "" && D.Panic == nil && D.Probes.NFired == 2 {
+						if !strings.HasPrefix(dout, dpre) || !strings.HasSuffix(dout, dpost) || len(dout) < len(dpre)+len(dpost) {
+							env.Violate("spliced-output", "double-fault:surroundings-differ", "two failures in one execution (calls %d and %d, the second after the first was absorbed): what is rendered before/after the try statement differs from the fault-free run.\nfault-free: %s\ngot:        %s", k, k2, sim.Q(Norm(O.Out)), sim.Q(dout))
+						}
+					}
+					R, _ := run(&jetSet{set}, call)
+					if R.Key() != O.Key() {
+						env.Violate("no-trace-later", "later-execution-differs", "after an execution with two failures inside the try body (calls %d and %d), the fault-free execution of %s renders differently than before.\nbefore: %s\nafter:  %s", k, k2, m, O.Describe(), R.Describe())
+					}
+				}
+			}
 			if !F.Probes.Fired {
 				env.Violate("determinism", "fault-not-reached", "dynamic call %d was reached in the fault-free run but not in the faulted run of %s", k, m)
 				continue
@@ -246,6 +293,21 @@ func RunC13(env *sim.Env) {
 			}
 			okMid := strings.HasPrefix(mid, wantPrefix)
 			tail := strings.TrimPrefix(mid, wantPrefix)
+			// the catch body also prints '.': it runs at the place of the try statement, so it must see
+			// the context the statement had (what the state probe right after the statement prints)
+			if opts.CatchForm > 0 {
+				ctxAfter := strings.TrimPrefix(segment(post, "ctx"), "<ctx:")
+				ctxAfter = strings.TrimSuffix(ctxAfter, ">")
+				if i := strings.Index(tail, "<cc:"); i >= 0 && strings.HasSuffix(tail, ">") {
+					cc := tail[i+len("<cc:") : len(tail)-1]
+					tail = tail[:i]
+					if cc != ctxAfter {
+						env.Violate("spliced-output", "catch-state:context", "failure at call %d = fail(%d) (%s line %d, under %v): inside the catch body '.' is %s, but at the try statement it is %s", k, id, ps.File, ps.Line, ps.Encl, sim.Q(cc), sim.Q(ctxAfter))
+					}
+				} else {
+					okMid = false
+				}
+			}
 			switch opts.CatchForm {
 			case 0, 1:
 				okMid = okMid && tail == ""
